@@ -113,7 +113,7 @@ bool mcount_rstack_has_plthook(struct mcount_thread_data *mtdp)
 {
 	int idx;
 
-	for (idx = 0; idx < mtdp->idx; idx++) {
+	for (idx = 0; idx < mtdp->idx && idx < mcount_rstack_max; idx++) {
 		if (mtdp->rstack[idx].dyn_idx != MCOUNT_INVALID_DYNIDX)
 			return true;
 	}
@@ -130,8 +130,13 @@ void mcount_rstack_restore(struct mcount_thread_data *mtdp)
 	if (unlikely(mcount_estimate_return))
 		return;
 
+	/* idx can exceed the rstack (-finstrument-functions counts beyond it) */
+	idx = mtdp->idx;
+	if (idx > mcount_rstack_max)
+		idx = mcount_rstack_max;
+
 	/* reverse order due to tail calls */
-	for (idx = mtdp->idx - 1; idx >= 0; idx--) {
+	for (idx--; idx >= 0; idx--) {
 		rstack = &mtdp->rstack[idx];
 
 		if (rstack->parent_ip == mcount_return_fn || rstack->parent_ip == plthook_return_fn)
@@ -198,7 +203,11 @@ void mcount_rstack_rehook(struct mcount_thread_data *mtdp)
 	if (unlikely(mcount_estimate_return))
 		return;
 
-	for (idx = mtdp->idx - 1; idx >= 0; idx--) {
+	idx = mtdp->idx;
+	if (idx > mcount_rstack_max)
+		idx = mcount_rstack_max;
+
+	for (idx--; idx >= 0; idx--) {
 		rstack = &mtdp->rstack[idx];
 
 		if (rstack->dyn_idx == MCOUNT_INVALID_DYNIDX)
